@@ -353,7 +353,7 @@ func (x *Exec) doRun(op Op) (*StepRecord, error) {
 	if err != nil {
 		return nil, err
 	}
-	req := &proto.RunReq{Root: x.Root, Args: run.Args, Gens: run.Gens, Sched: run.Sched, Faults: run.Faults, ReadSum: run.Args.All}
+	req := &proto.RunReq{Root: x.Root, Args: run.Args, Gens: run.Gens, Sched: run.Sched, Faults: run.Faults, ReadSum: run.Args.All, RetrySameExecutor: run.RetrySameExecutor}
 	for i := range req.Faults {
 		if req.Faults[i].Kind != "" {
 			req.Faults[i].ExecSeq = -1
@@ -473,10 +473,16 @@ func (x *Exec) doConverge(op Op) error {
 	}
 	base := *last.Op.Run
 	base.Faults = nil
+	forced := base.Args.Force
 	base.Args.Force = false
 	for i := 0; i < limit; i++ {
 		r := base
 		r.Fresh = i%2 == 0
+		if i == 0 && op.How == "recover" {
+			// recovery: the user runs the SAME command again (a forced run that crashed is re-run
+			// forced - the cache knows nothing about generator versions); then unforced runs converge
+			r.Args.Force = forced
+		}
 		rec, err := x.doRun(Op{Kind: "run", Run: &r, Note: "converge"})
 		if err != nil {
 			return err
